@@ -242,19 +242,23 @@ CHECKS["C04"] = dict(
     category="model_checking",
     text="Slashing.tla models ekm AddShare / RemoveShare / BumpSlashingProtection / SignBeaconObject (attestation, block) "
          "with eth2-key-manager's NormalProtection and wallet as sequential read/write programs over four database items, "
-         "one action per public call with at most one fault plan (crash before/after a write, write error, read error, "
-         "read not-found, empty value), so a crash falls between any two writes; restart = new signer on the surviving "
-         "database. TLC exhausts clock <= 5 slots / 1 fault (quick) or 7 slots / 2 faults (thorough, 1.33M states) checking "
+         "one action per public call with at most one fault plan (crash before/after a write, one failing write, read error, "
+         "read not-found, empty value) or a persistent write fault (failall: every Set/Delete of the highest-attestation or "
+         "highest-proposal record fails for 1..MaxPersist consecutive calls, over restarts; spec variable broken), so a crash "
+         "falls between any two writes and a retry meets the same error; restart = new signer on the surviving "
+         "database. TLC exhausts clock <= 5 slots / 1 fault (quick) or 7 slots / 2 faults (thorough, 2.06M states) checking "
          "NoDoubleVote, NoSurround, NoDoubleBlock, RefuseWhenUnknown and the covering invariant; Apalache discharges the "
-         "inductive step for unbounded integers on SlashInd.tla (thorough). State-graph cover, simulations and per-clause "
-         "attack traces of ten weakenings are replayed on the real key manager over real badger behind a fault-injecting "
+         "inductive step for unbounded integers on SlashInd.tla (thorough), where three weakened steps (< for <=, bump keeps "
+         "source, release without record update) are refuted. State-graph cover, simulations and per-clause "
+         "attack traces of eleven weakenings (incl. saveErrSwallowed: record write retried, last error dropped) are replayed on the real key manager over real badger behind a fault-injecting "
          "wrapper and a fake clock; the monitor applies the slashing conditions to released signatures only. Random real "
          "executions are validated against SlashingTrace.tla; concurrent signing runs under -race.",
     design_ref="DESIGN.md section 5 C04",
     note="one share, SPE=2; targets/slots not beyond the clock; add/remove/reactivate assumed not to overlap signing of "
          "the same share; concurrent part is a sampled exploration (the dependency's account lock deadlocks under "
          "contention, counted, not a verdict); the empty-record fault was a genuine defect (fixed in 25c7aec2a) and stays "
-         "in the model as a named deviation.",
+         "in the model as a named deviation; a persistent write fault hits one protection record at a time and no second plan is "
+         "injected while it lasts; account/wallet writes fail only once per call.",
     technique="TLA+ spec + TLC exhaustive check + Apalache inductive step; cover / attack traces replayed on the real "
               "signer with crash and storage-fault injection; TLC trace validation of recorded executions",
 )
